@@ -207,6 +207,8 @@ pub enum Outcome {
     Cap,
     /// the embedder dropped the runtime early on purpose
     Dropped,
+    /// main has not finished, no host call is pending, and no task can run any more
+    Stalled,
 }
 
 #[derive(Serialize, Deserialize, Clone, Debug, Default, PartialEq, Eq)]
@@ -268,6 +270,8 @@ pub struct RunResult {
     pub string_steps: Vec<u64>,
     /// largest sum of the threads' heap sizes seen at the end of a run_n_steps call
     pub peak_heap: usize,
+    /// heap size of every thread at that moment
+    pub peak_heap_threads: Vec<usize>,
 }
 
 #[derive(Serialize, Deserialize, Clone, Debug)]
@@ -353,7 +357,7 @@ impl Default for RunOptions {
             completeness_probe: false,
             drop_at_step: u64::MAX,
             abandon_thread: u32::MAX,
-            progress_window_factor: 4,
+            progress_window_factor: 2000,
             next_int_base: 100,
             record_string_steps: false,
         }
@@ -403,6 +407,11 @@ pub struct Sim {
     readline_n: u64,
     /// model of the run queue as a rotating list of thread ordinals (probe only, see `turn_probe`)
     turn_queue: VecDeque<u32>,
+    /// latest known heap size of every live thread, and the largest sum seen (exact at
+    /// instruction granularity: updated whenever the collector seam is consulted)
+    heap_now: HashMap<u64, usize>,
+    pub heap_peak: usize,
+    pub heap_peak_threads: Vec<usize>,
     /// global indices of the steps that executed a resumable string instruction (capped)
     pub string_steps: Vec<u64>,
     record_string_steps: bool,
@@ -529,6 +538,9 @@ impl Sim {
             next_int: next_int_base,
             readline_n: 0,
             turn_queue: VecDeque::new(),
+            heap_now: HashMap::new(),
+            heap_peak: 0,
+            heap_peak_threads: vec![],
             string_steps: vec![],
             record_string_steps: false,
         }
@@ -795,9 +807,23 @@ impl Sim {
         serve
     }
 
+    fn note_heap(&mut self, thread: u64, size: usize) {
+        let old = self.heap_now.insert(thread, size);
+        if old.is_none_or(|o| size > o) {
+            let total: usize = self.heap_now.values().sum();
+            if total > self.heap_peak {
+                self.heap_peak = total;
+                let mut v: Vec<usize> = self.heap_now.values().copied().collect();
+                v.sort_unstable_by(|a, b| b.cmp(a));
+                self.heap_peak_threads = v;
+            }
+        }
+    }
+
     fn decide_gc(&mut self, ctx: &GcCtx) -> GcAction {
         let idx = self.gc_idx;
         self.gc_idx += 1;
+        self.note_heap(ctx.thread, ctx.heap_size);
         let open = self.faults_open();
         // steering: a thread whose marking ended with an unmarked reachable object gets its
         // sweep finished right away so the latent loss becomes observable while still in use
@@ -1094,7 +1120,9 @@ impl Sim {
                 parent,
                 child,
                 ncaptures,
+                child_heap_size,
             } => {
+                self.note_heap(*child, *child_heap_size);
                 let p = self.ordinal(*parent, false);
                 let c = self.ordinal(*child, false);
                 self.hash.u64(2 | (p as u64) << 8 | (c as u64) << 24 | (*ncaptures as u64) << 40);
@@ -1129,6 +1157,7 @@ impl Sim {
                 if let Some(m) = self.threads.get_mut(thread) {
                     m.dropped = true;
                 }
+                self.heap_now.remove(thread);
                 self.count("ev_thread_dropped");
             }
             Event::ChanNew { thread, chan } => {
@@ -1467,6 +1496,8 @@ pub fn run_once(make_rt: &dyn Fn() -> Runtime, src: Source, opts: &RunOptions) -
     let mut post_calls_left = opts.post_done_calls;
     let mut live_after_full_gc = None;
     let mut peak_heap = 0usize;
+    let mut peak_heap_threads: Vec<usize> = vec![];
+    let mut stalled_calls = 0u32;
 
     'run: loop {
         let rtm = rt.as_mut().unwrap();
@@ -1504,6 +1535,7 @@ pub fn run_once(make_rt: &dyn Fn() -> Runtime, src: Source, opts: &RunOptions) -
         if executed == 0 {
             idle_turns += 1;
         }
+
         // ---- status shadow model (C11) -----------------------------------------------------------
         if executed > k as u64 {
             s.violate(
@@ -1524,6 +1556,7 @@ pub fn run_once(make_rt: &dyn Fn() -> Runtime, src: Source, opts: &RunOptions) -
         let heap_now: usize = infos.iter().map(|t| t.heap_size).sum();
         if heap_now > peak_heap {
             peak_heap = heap_now;
+            peak_heap_threads = infos.iter().map(|t| t.heap_size).collect();
         }
         if infos.iter().any(|t| t.string_op_in_flight) {
             s.count("probe_slice_boundary_in_string_op");
@@ -1674,6 +1707,17 @@ pub fn run_once(make_rt: &dyn Fn() -> Runtime, src: Source, opts: &RunOptions) -
                 post_calls_left -= 1;
             }
             _ => {}
+        }
+        // several consecutive calls with a positive budget in which nothing ran although nothing
+        // waits for the host: no task will ever run again
+        if k > 0 && executed == 0 && !any_parked && matches!(status.kind, RuntimeStatusKind::OutOfSteps) {
+            stalled_calls += 1;
+            if stalled_calls >= 3 {
+                outcome = Some(Outcome::Stalled);
+                break 'run;
+            }
+        } else if k > 0 {
+            stalled_calls = 0;
         }
         // a lifecycle fault lands exactly after instruction `drop_at_step`, before the host gets
         // to answer anything at this boundary (so the dropped state does not depend on servicing)
@@ -1855,7 +1899,8 @@ pub fn run_once(make_rt: &dyn Fn() -> Runtime, src: Source, opts: &RunOptions) -
         live_after_full_gc,
         unread_messages: unread,
         string_steps: s.string_steps,
-        peak_heap,
+        peak_heap: if s.heap_peak > 0 { s.heap_peak } else { peak_heap },
+        peak_heap_threads: if s.heap_peak > 0 { s.heap_peak_threads } else { peak_heap_threads },
     }
 }
 
